@@ -820,6 +820,16 @@ func runRunner(c *core.Ctx, which string) {
 		}
 		c.RunSharded(pids, core.ShardOpts{Mode: "c04proj", Workers: 12, Timeout: 20 * time.Minute})
 	}
+	if which == "C05" {
+		// the same property through real projects: cyclic target graphs built repeatedly on one long-lived Project
+		var pids []string
+		for i := 0; i < c.N(60, 1500); i++ {
+			if id := fmt.Sprintf("cproj/%d", i); c.Want(id) {
+				pids = append(pids, id)
+			}
+		}
+		c.RunSharded(pids, core.ShardOpts{Mode: "c05proj", Workers: 12, Timeout: 20 * time.Minute, Env: []string{"VERIF_CASE_TIMEOUT=120"}})
+	}
 	races = countRaceReports(c, c.Scratch+"/race-"+which, which)
 	c.Extra("race_detector_reports", races)
 	c.Extra("limits", limits)
@@ -957,6 +967,102 @@ func c04ProjCase(c *core.Ctx, id string) {
 				c.Violation(id, "", "C04: a target body ran more than once in one build", map[string]any{"finding": f, "history": e.Script()})
 				return
 			}
+		}
+	}
+	// "the outcome it is handed for each dependency is that dependency's actual outcome", seen from outside: when a body
+	// fails, the error a requested dependent ends with names a dependency that did not succeed in this build
+	ts := e.P.AllTargets()
+	for k := 0; k < 3; k++ {
+		f := ts[g.R.IntN(len(ts))]
+		var dependents []string
+		for _, t := range ts {
+			if t != f && contains2(e.Closure(t.Label()), f.Label()) {
+				dependents = append(dependents, t.Label())
+			}
+		}
+		if len(dependents) == 0 {
+			continue
+		}
+		req := dependents[g.R.IntN(len(dependents))]
+		_, res, _ := e.Build(req, pj.BuildOpt{Always: true, Failing: []string{f.Label()}})
+		c.Eval(fmt.Sprintf("%s/fail/%d", id, k))
+		c.Count("project_builds_with_a_failing_body", 1)
+		if res.RunErr == "" {
+			c.Violation(id, "", "C04: the build's result is not the requested target's result", map[string]any{"requested": req, "failing_body": f.Label(), "why": "a body in the closure failed, the build reported success", "history": e.Script()})
+			return
+		}
+		okOutcome := map[string]bool{}
+		for _, ev := range res.Events {
+			if ev.Kind == "TargetSucceeded" || ev.Kind == "TargetUpToDate" {
+				okOutcome[ev.Label] = true
+			}
+		}
+		var named string
+		if n, _ := fmt.Sscanf(res.RunErr, "dependency %s failed", &named); n == 1 && okOutcome[named] {
+			c.Violation(id, "", "C04: a target was handed another outcome than its dependency's actual one", map[string]any{"requested": req, "failing_body": f.Label(),
+				"run_error": res.RunErr, "why": named + " succeeded in this build, yet the requested target failed because of it", "history": e.Script(), "build_file_root": e.P.RenderFile("pkg:")})
+			return
+		}
+	}
+}
+
+// ---- C05 at the project level: cyclic target graphs on one long-lived Project ---------------------------------------
+
+func init() { registerCase("c05proj", c05ProjCase) }
+
+func c05ProjCase(c *core.Ctx, id string) {
+	g := &pj.Gen{R: c.Rand(id)}
+	r := g.R
+	dir := filepath.Join(c.Scratch, fmt.Sprintf("c05p-%d", os.Getpid()))
+	os.RemoveAll(dir)
+	defer os.RemoveAll(dir)
+	s := pj.NewSession(dir)
+	p := g.Project()
+	ts := p.AllTargets()
+	// close a cycle: self-dependency, two-cycle, or a back edge from something deep to something that reaches it
+	a := ts[r.IntN(len(ts))]
+	kind := []string{"self", "back-edge", "back-edge"}[r.IntN(3)]
+	e := pj.NewEngine(s, p, g)
+	switch kind {
+	case "self":
+		a.Deps = append(a.Deps, a.Label())
+	default:
+		cl := e.Closure(a.Label())
+		b := p.Target(cl[r.IntN(len(cl))])
+		b.Deps = append(b.Deps, a.Label())
+		if b == a {
+			kind = "self"
+		}
+	}
+	p.WriteAll(s.Root)
+	// requested targets: something that reaches the cycle
+	var reqs []string
+	for _, t := range ts {
+		if contains2(e.Closure(t.Label()), a.Label()) {
+			reqs = append(reqs, t.Label())
+		}
+	}
+	lv := &pj.Live{}
+	for round := 0; round < 4; round++ {
+		req := reqs[r.IntN(len(reqs))]
+		res := lv.Build(pj.BuildReq{Root: s.Root, Target: req, Always: round == 2}) // plain builds pass nil options, like Watch
+		c.Eval(fmt.Sprintf("%s/%d", id, round))
+		c.Distinct(fmt.Sprintf("%s/%s/%d", id, kind, round))
+		c.Count("cyclic_project_builds:"+kind, 1)
+		if res.LoadErr != "" {
+			c.Violation(id, "", "C05: generated project does not load", map[string]any{"error": res.LoadErr})
+			return
+		}
+		cyc := 0
+		for _, ev := range res.Events {
+			if ev.Kind == "TargetFailed" && strings.Contains(ev.Err, "cyclic dependency") {
+				cyc++
+			}
+		}
+		if res.RunErr == "" || cyc == 0 {
+			c.Violation(id, "", "C05: cyclic graph, no cyclic-dependency error reported", map[string]any{"requested": req, "cycle_through": a.Label(), "cycle_kind": kind, "round": round,
+				"run_error": res.RunErr, "cyclic_dependency_errors_reported": cyc, "events": renderEvents(res.Events), "note": "builds 0..3 run on one Project, Reload() in between; plain builds pass nil options"})
+			return
 		}
 	}
 }
